@@ -34,9 +34,12 @@ type s2Fault struct {
 }
 
 type s2Msg struct {
-	ID     string    `json:"id"`
-	Rcpts  []string  `json:"rcpts"`
+	ID     string      `json:"id"`
+	Rcpts  []string    `json:"rcpts"`
 	Faults [][]s2Fault `json:"faults"` // Faults[a-1] (1-2 injected results) applies to attempt a; later attempts succeed
+	// NullSender: enqueued with MAIL FROM:<> (a report or the like); the queue
+	// generates no failure report for it.
+	NullSender bool `json:"null_sender,omitempty"`
 }
 
 type s2Scenario struct {
@@ -48,6 +51,27 @@ type s2Scenario struct {
 	CloseKind   string    `json:"close_kind"` // none | start | commitcall | commitret | attempt
 	CloseK      int       `json:"close_k"`
 	NMsgs       int       `json:"n_msgs"`
+
+	// Extension (s2b_test.go), all zero in a legacy scenario.
+	Extended          bool      `json:"extended,omitempty"`
+	Bounce            string    `json:"bounce,omitempty"`             // "" | script | self | second: where the queue's bounce pipeline delivers
+	ViaPipeline       bool      `json:"via_pipeline,omitempty"`       // a real msgpipeline built from configuration text sits in between
+	PipelineForm      int       `json:"pipeline_form,omitempty"`      // which configuration text
+	SecondCloseFirst  bool      `json:"second_close_first,omitempty"` // second queue is closed before the reporting queue
+	SecondParallelism int       `json:"second_parallelism,omitempty"`
+	BounceFail        string    `json:"bounce_fail,omitempty"` // script layout: stage at which the bounce target fails
+	BounceFailClass   string    `json:"bounce_fail_class,omitempty"`
+	HoldStage         string    `json:"hold_stage,omitempty"` // stage of the target at which attempts are held in flight ("" = body)
+	DSNFaults         []s2Fault `json:"dsn_faults,omitempty"` // k-th report seen by a queue's target: temporary failure in its first attempt
+}
+
+// genS2x is genS2 plus the report dimensions, which are drawn from a PRNG
+// stream of their own so that the base scenario of a case index is what it
+// was before the extension existed.
+func genS2x(seed uint64, p *prng.R, caseIdx int) s2Scenario {
+	sc := genS2(p, caseIdx)
+	extendS2(prng.New(seed, uint64(caseIdx), "c12/s2/bounce"), &sc, caseIdx)
+	return sc
 }
 
 func genS2(p *prng.R, caseIdx int) s2Scenario {
@@ -121,6 +145,9 @@ func (sc s2Scenario) shape() string {
 	for _, ms := range sc.Enqueuers {
 		for _, m := range ms {
 			s := fmt.Sprintf("%d:", len(m.Rcpts))
+			if m.NullSender {
+				s = "n" + s
+			}
 			for _, fs := range m.Faults {
 				for _, x := range fs {
 					s += x.Stage[:2] + x.Class[:1]
@@ -131,7 +158,7 @@ func (sc s2Scenario) shape() string {
 		}
 	}
 	sort.Strings(f)
-	return fmt.Sprintf("S2 e=%d par=%d partial=%v hold=%d retry=%d close=%s@%d msgs=%s", len(sc.Enqueuers), sc.Parallelism, sc.Partial, sc.Hold, sc.RetryUs, sc.CloseKind, sc.CloseK, strings.Join(f, ","))
+	return fmt.Sprintf("S2 e=%d par=%d partial=%v hold=%d retry=%d close=%s@%d msgs=%s", len(sc.Enqueuers), sc.Parallelism, sc.Partial, sc.Hold, sc.RetryUs, sc.CloseKind, sc.CloseK, strings.Join(f, ",")) + sc.extShape()
 }
 
 // baseID strips the "-<hex unix time>" suffix the queue appends for the target.
@@ -148,8 +175,8 @@ func baseID(id string) string {
 type s2Mon struct {
 	mu        sync.Mutex
 	msgs      map[string]*s2Msg
-	attempt   map[string]int    // base id -> attempts started
-	cur       map[string]int    // target-side msg id -> attempt number
+	attempt   map[string]int         // base id -> attempts started
+	cur       map[string]int         // target-side msg id -> attempt number
 	tStart    map[string][]time.Time // base id -> start time of attempt n (index n-1)
 	tLast     map[string][]time.Time // base id -> last observed call of attempt n
 	held      int
@@ -162,11 +189,18 @@ type s2Mon struct {
 	trig      chan struct{}
 	trigFired bool
 	holdGuard []string
+	holdStage string    // stage at which attempts are held
+	dsnFaults []s2Fault // scripted first-attempt results of the reports this target sees
+	nReports  int       // messages seen that the harness did not enqueue (reports)
 }
 
 func newS2Mon(sc s2Scenario, withFaults bool) *s2Mon {
 	m := &s2Mon{msgs: map[string]*s2Msg{}, attempt: map[string]int{}, cur: map[string]int{}, tStart: map[string][]time.Time{}, tLast: map[string][]time.Time{},
-		holdMax: sc.Hold, gate: make(chan struct{}), counts: map[string]int{}, trigKind: sc.CloseKind, trigK: sc.CloseK, trig: make(chan struct{})}
+		holdMax: sc.Hold, gate: make(chan struct{}), counts: map[string]int{}, trigKind: sc.CloseKind, trigK: sc.CloseK, trig: make(chan struct{}),
+		holdStage: sc.HoldStage, dsnFaults: sc.DSNFaults}
+	if m.holdStage == "" {
+		m.holdStage = mx.StBody
+	}
 	if withFaults {
 		for i := range sc.Enqueuers {
 			for j := range sc.Enqueuers[i] {
@@ -213,10 +247,21 @@ func (m *s2Mon) hook(pt mx.Point) {
 		m.cur[pt.MsgID+"/"+fmt.Sprint(pt.Attempt)] = m.attempt[b]
 		m.tStart[b] = append(m.tStart[b], now)
 		m.tLast[b] = append(m.tLast[b], now)
+		if m.msgs[b] == nil {
+			// not enqueued by the harness: a report generated by a queue under test
+			rm := &s2Msg{ID: b}
+			if len(m.dsnFaults) > 0 {
+				if f := m.dsnFaults[m.nReports%len(m.dsnFaults)]; f.Stage != "" {
+					rm.Faults = [][]s2Fault{{f}}
+				}
+			}
+			m.nReports++
+			m.msgs[b] = rm
+		}
 	} else if n := len(m.tLast[b]); n > 0 {
 		m.tLast[b][n-1] = now
 	}
-	if pt.Stage == mx.StBody && m.held < m.holdMax {
+	if pt.Stage == m.holdStage && m.held < m.holdMax {
 		m.held++
 		hold = true
 	}
@@ -247,7 +292,9 @@ func (m *s2Mon) attemptOf(pt mx.Point) int {
 }
 
 func (m *s2Mon) script(pt mx.Point) error {
+	m.mu.Lock()
 	msg := m.msgs[baseID(pt.MsgID)]
+	m.mu.Unlock()
 	if msg == nil {
 		return nil
 	}
@@ -274,9 +321,11 @@ type rcptState struct {
 }
 
 type msgView struct {
-	Starts     int // Start calls (attempts) seen for this message
-	TempRounds int // attempts in which some recipient got a temporary failure (each schedules exactly one retry)
-	Open       int // attempts that were started and neither committed nor aborted
+	Starts     int  // Start calls (attempts) seen for this message
+	TempRounds int  // attempts in which some recipient got a temporary failure (each schedules exactly one retry)
+	Open       int  // attempts that were started and neither committed nor aborted
+	PermRounds int  // attempts in which some recipient failed permanently (each makes the queue generate one report)
+	AllPerm    bool // Start itself was refused permanently: every recipient still to be tried failed for good
 	Rcpt       map[string]*rcptState
 }
 
@@ -307,21 +356,46 @@ func viewOf(lg *mx.Log) map[string]*msgView {
 	for _, s := range mx.Summaries(evs) {
 		v := get(baseID(s.MsgID))
 		temp := s.StartClass == mx.Temp || s.BodyClass == mx.Temp || s.Commit == mx.Temp
+		perm := false
+		if s.StartClass == mx.Perm {
+			// recipients not offered in this attempt had their terminal outcome before
+			v.AllPerm, perm = true, true
+		}
 		for r, cl := range s.Refused {
 			if cl == mx.Temp {
 				temp = true
 			}
 			if cl == mx.Perm {
-				rs(v, r).PermFail = true
+				rs(v, r).PermFail, perm = true, true
 			}
 		}
-		for _, cl := range s.Status {
+		for r, cl := range s.Status {
 			if cl == mx.Temp {
 				temp = true
+			}
+			if cl == mx.Perm {
+				rs(v, r).PermFail, perm = true, true
+			}
+		}
+		if s.BodyClass == mx.Perm {
+			// whole-body refusal: every accepted recipient failed for good
+			for _, r := range s.Accepted {
+				rs(v, r).PermFail, perm = true, true
+			}
+		}
+		if s.Commit == mx.Perm {
+			// Commit refusal concerns the recipients that were going to be committed
+			for _, r := range s.Accepted {
+				if _, bad := s.Status[r]; !bad {
+					rs(v, r).PermFail, perm = true, true
+				}
 			}
 		}
 		if temp {
 			v.TempRounds++
+		}
+		if perm {
+			v.PermRounds++
 		}
 		if s.StartClass == mx.OK && s.Commit == "" && s.Abort == "" {
 			v.Open++
@@ -342,7 +416,7 @@ func runS2(t *testing.T, r *rep.Reporter, env instrEnv, ys yieldStats) {
 		r.Run(idx, fmt.Sprintf("s2-d0-%d", i), func(c *rep.Case) {
 			onReplayRepeat(r, c, 100, func() {
 				p := prng.New(r.Seed(), uint64(idx), "c12/s2")
-				s2Case(t, c, r, ys, p, genS2(p, idx), stressPlan(p))
+				s2Case(t, c, r, ys, p, genS2x(r.Seed(), p, idx), stressPlan(p))
 			})
 		})
 	}
@@ -357,7 +431,7 @@ func runS2(t *testing.T, r *rep.Reporter, env instrEnv, ys yieldStats) {
 				r.Run(idx, fmt.Sprintf("s2-d1-%s#%d-r%d", site, occ, rp), func(c *rep.Case) {
 					onReplayRepeat(r, c, 100, func() {
 						p := prng.New(r.Seed(), uint64(idx), "c12/s2")
-						s2Case(t, c, r, ys, p, genS2(p, idx), planSpec{D: 1, Points: []verifkit.PlanPoint{{Site: site, Occ: occ}}})
+						s2Case(t, c, r, ys, p, genS2x(r.Seed(), p, idx), planSpec{D: 1, Points: []verifkit.PlanPoint{{Site: site, Occ: occ}}})
 					})
 				})
 			}
@@ -377,7 +451,7 @@ func runS2(t *testing.T, r *rep.Reporter, env instrEnv, ys yieldStats) {
 				if a == b {
 					b.Occ++
 				}
-				s2Case(t, c, r, ys, p, genS2(p, idx), planSpec{D: 2, Points: []verifkit.PlanPoint{a, b}})
+				s2Case(t, c, r, ys, p, genS2x(r.Seed(), p, idx), planSpec{D: 2, Points: []verifkit.PlanPoint{a, b}})
 			})
 		})
 	}
@@ -407,9 +481,76 @@ func s2Case(t *testing.T, c *rep.Case, r *rep.Reporter, ys yieldStats, p *prng.R
 
 	plan.install(p.Uint64())
 	retry := time.Duration(sc.RetryUs) * time.Microsecond
-	q, err := queue.VerifNewQueue(queue.VerifOpts{Dir: dir, Target: tgt, MaxTries: 50, InitialRetryTime: retry, RetryTimeScale: 1, Parallelism: sc.Parallelism})
+
+	// ---- where the queue's failure reports go ----
+	var (
+		tap    *dsnTap
+		bounce module.DeliveryTarget // stays a nil interface without a bounce pipeline
+		lgB    *mx.Log               // scripted bounce target (layout script)
+		lg2    *mx.Log               // target of the second queue (layout second)
+		mon2   *s2Mon
+		q2     *queue.Queue
+		dir2   string
+	)
+	if sc.Bounce != bounceNone {
+		tap = newTap(c.Index)
+		bounce = tap
+		switch sc.Bounce {
+		case bounceScript:
+			lgB = mx.NewLog()
+			bt := mx.NewTarget(fmt.Sprintf("c12b-%d", c.Index), lgB)
+			bt.Script = func(pt mx.Point) error {
+				if sc.BounceFail == "" || pt.Stage != sc.BounceFail {
+					return nil
+				}
+				return mx.MakeErr(sc.BounceFailClass, 0, "c12 bounce target")
+			}
+			tap.bind(bt)
+		case bounceSecond:
+			if dir2, err = os.MkdirTemp("", "c12q2"); err != nil {
+				t.Fatal(err)
+			}
+			defer os.RemoveAll(dir2)
+			lg2 = mx.NewLog()
+			mon2 = newS2Mon(sc, false)
+			tgtS := mx.NewTarget(fmt.Sprintf("c12s-%d", c.Index), lg2)
+			tgtS.Partial = sc.Partial
+			tgtS.Hook = mon2.hook
+			tgtS.Script = mon2.script
+			q2, err = queue.VerifNewQueue(queue.VerifOpts{Dir: dir2, Target: tgtS, MaxTries: 50, InitialRetryTime: retry, RetryTimeScale: 1, Parallelism: sc.SecondParallelism})
+			if err != nil {
+				t.Fatal(err)
+			}
+			tap.bind(q2)
+		}
+		if sc.ViaPipeline {
+			// the bounce { } block as the configuration parser and msgpipeline build it
+			mx.RegisterInstance(tap)
+			pl, err := mx.BuildPipeline(bouncePipelineText(sc.PipelineForm, tap.InstanceName()), nil)
+			if err != nil {
+				t.Fatalf("case %s: bounce pipeline: %v", c.ID, err)
+			}
+			pl.Hostname = "mx.example.org"
+			bounce = pl
+		}
+	}
+	q, err := queue.VerifNewQueue(queue.VerifOpts{Dir: dir, Target: tgt, Bounce: bounce, MaxTries: 50, InitialRetryTime: retry, RetryTimeScale: 1, Parallelism: sc.Parallelism,
+		Hostname: "mx.example.org", AutogenMsgDomain: "example.org"})
 	if err != nil {
 		t.Fatal(err)
+	}
+	if sc.Bounce == bounceSelf {
+		tap.bind(q) // bounce { ... deliver_to &this_queue }
+	}
+	progress := func() int {
+		n := lg.Len() + tap.len()
+		if lg2 != nil {
+			n += lg2.Len()
+		}
+		if lgB != nil {
+			n += lgB.Len()
+		}
+		return n
 	}
 
 	var omu sync.Mutex
@@ -438,7 +579,11 @@ func s2Case(t *testing.T, c *rep.Case, r *rep.Reporter, ys yieldStats, p *prng.R
 						}
 					}()
 					ctx := context.Background()
-					d, err := q.Start(ctx, &module.MsgMetadata{ID: m.ID, OriginalFrom: "s@example.org"}, "s@example.org")
+					from := "s@example.org"
+					if m.NullSender {
+						from = ""
+					}
+					d, err := q.Start(ctx, &module.MsgMetadata{ID: m.ID, OriginalFrom: from}, from)
 					if err != nil {
 						panic("harness: queue.Start: " + err.Error())
 					}
@@ -483,7 +628,19 @@ func s2Case(t *testing.T, c *rep.Case, r *rep.Reporter, ys yieldStats, p *prng.R
 				omu.Unlock()
 			}
 		}()
+		if q2 != nil && sc.SecondCloseFirst {
+			q2.Close()
+		}
+		if tap != nil {
+			tap.closing.Store(true)
+		}
 		q.Close()
+		if tap != nil {
+			tap.closing.Store(false)
+		}
+		if q2 != nil && !sc.SecondCloseFirst {
+			q2.Close()
+		}
 		omu.Lock()
 		closeReturned = true
 		omu.Unlock()
@@ -507,16 +664,93 @@ func s2Case(t *testing.T, c *rep.Case, r *rep.Reporter, ys yieldStats, p *prng.R
 		if yieldTrace == nil {
 			w["yield_trace_tail"] = tail(verifkit.Trace(), 60)
 		}
+		if tap != nil {
+			w["reports_handed_to_bounce_pipeline"] = tap.snapshot()
+		}
+		if lg2 != nil {
+			w["second_queue_target_log"] = tail(lg2.Strings(0), 60)
+		}
+		if lgB != nil {
+			w["bounce_target_log"] = tail(lgB.Strings(0), 60)
+		}
 		for k, v := range extra {
 			w[k] = v
 		}
 		return w
 	}
 
+	// reportSpool lists the reports whose Commit into a queue under test returned nil.
+	reportSpool := func(recs []dsnRec) []spoolMsg {
+		var out []spoolMsg
+		if sc.Bounce != bounceSelf && sc.Bounce != bounceSecond {
+			return nil
+		}
+		for _, rec := range recs {
+			if rec.Committed {
+				out = append(out, spoolMsg{ID: rec.ID, Rcpts: rec.Rcpts, Report: true})
+			}
+		}
+		return out
+	}
+	// quiet: (1) every recipient of every enqueued message and of every report
+	// committed to a queue has a terminal outcome and no attempt is open; (2)
+	// every attempt that failed permanently for a message with a return path has
+	// handed its report over, i.e. nothing is going to be enqueued any more.
+	// The reports are read BEFORE the target logs: a terminal outcome stays one,
+	// and a report missing from the earlier reading shows as a permanent failure
+	// without report in the later one.
+	quiet := func() (allTerminal, settled bool) {
+		recs := tap.snapshot()
+		view := viewOf(lg)
+		if !s2AllTerminal(sc, view) {
+			return false, false
+		}
+		rview := view
+		if sc.Bounce == bounceSecond {
+			rview = viewOf(lg2)
+			for _, v := range rview {
+				if v.Open > 0 {
+					return false, false
+				}
+			}
+		}
+		for _, m := range reportSpool(recs) {
+			v := rview[m.ID]
+			if v == nil || v.Open > 0 {
+				return false, false
+			}
+			for _, rc := range m.Rcpts {
+				if !terminal(v, rc) {
+					return false, false
+				}
+			}
+		}
+		if sc.Bounce == bounceNone {
+			return true, true
+		}
+		expected := 0
+		for _, ms := range sc.Enqueuers {
+			for _, m := range ms {
+				if v := view[m.ID]; v != nil && !m.NullSender {
+					expected += v.PermRounds
+				}
+			}
+		}
+		if len(recs) != expected {
+			return true, false
+		}
+		for _, rec := range recs {
+			if !rec.Done {
+				return true, false
+			}
+		}
+		return true, true
+	}
+
 	undecided := ""
 	enqOK := waitDone(enqDone)
 	if !enqOK {
-		parked, dump := stuckAnalysis("internal/target/queue.", "queue.(*TimeWheel).Add", lg.Len)
+		parked, dump := stuckAnalysis("internal/target/queue.", "queue.(*TimeWheel).Add", progress)
 		if parked {
 			c.Violation("S2/enqueue-never-returns", "an enqueuer is blocked forever inside the queue: every goroutine inside package queue is parked", wit(map[string]any{"goroutines": dump}))
 		} else {
@@ -530,8 +764,10 @@ func s2Case(t *testing.T, c *rep.Case, r *rep.Reporter, ys yieldStats, p *prng.R
 		// wait until every recipient has a terminal outcome, then close
 		mon.openGate()
 		deadline := time.Now().Add(currentWatchdog())
+		allTerminal := false
 		for {
-			if s2AllTerminal(sc, viewOf(lg)) {
+			var settled bool
+			if allTerminal, settled = quiet(); allTerminal && settled {
 				quiescent = true
 				break
 			}
@@ -540,8 +776,11 @@ func s2Case(t *testing.T, c *rep.Case, r *rep.Reporter, ys yieldStats, p *prng.R
 			}
 			time.Sleep(300 * time.Microsecond)
 		}
-		if !quiescent {
-			parked, dump := stuckAnalysis("internal/target/queue.", "queue.(*TimeWheel).tick", lg.Len)
+		if !quiescent && allTerminal {
+			// not a verdict: the harness' model of how many reports are generated did not hold
+			undecided = "the number of reports handed to the bounce pipeline did not settle within the watchdog"
+		} else if !quiescent {
+			parked, dump := stuckAnalysis("internal/target/queue.", "queue.(*TimeWheel).tick", progress)
 			held := mon.heldNow()
 			if parked && held == 0 {
 				c.Violation("S2/message-never-dispatched", "no shutdown requested, every goroutine of the queue is parked and a committed message (or a scheduled retry) has not been dispatched", wit(map[string]any{"goroutines": dump}))
@@ -557,7 +796,7 @@ func s2Case(t *testing.T, c *rep.Case, r *rep.Reporter, ys yieldStats, p *prng.R
 		}
 	}
 	if !waitDone(closeDone) {
-		parked, dump := stuckAnalysis("internal/target/queue.", "queue.(*Queue).Close", lg.Len)
+		parked, dump := stuckAnalysis("internal/target/queue.", "queue.(*Queue).Close", progress)
 		if parked && mon.heldNow() == 0 {
 			c.Violation("S2/close-never-returns", "Queue.Close blocks forever: every goroutine inside package queue is parked", wit(map[string]any{"goroutines": dump}))
 		} else if undecided == "" {
@@ -598,29 +837,43 @@ func s2Case(t *testing.T, c *rep.Case, r *rep.Reporter, ys yieldStats, p *prng.R
 	}
 	panics := globalLog.take()
 
-	// ---- spool after shutdown ----
-	files := map[string]bool{}
-	var broken []string
-	if ents, err := os.ReadDir(dir); err == nil {
-		for _, e := range ents {
-			files[e.Name()] = true
-			if strings.HasSuffix(e.Name(), ".meta_broken") {
-				broken = append(broken, e.Name())
+	// ---- spool(s) after shutdown ----
+	view := viewOf(lg)
+	primary := &spoolSite{Name: "primary", Dir: dir, Partial: sc.Partial, View: view}
+	sites := []*spoolSite{primary}
+	for _, ms := range sc.Enqueuers {
+		for _, m := range ms {
+			if outs[m.ID].Committed {
+				primary.Msgs = append(primary.Msgs, spoolMsg{ID: m.ID, Rcpts: m.Rcpts})
 			}
 		}
 	}
-	if len(broken) > 0 {
-		c.Violation("S2/meta-broken/"+dispatchPanicClass(panics), fmt.Sprintf("after shutdown the spool contains %v: a panic in the dispatch goroutine was recovered and the message was quarantined, a restart will not pick it up", broken),
-			wit(map[string]any{"spool": keys(files), "recovered_panics": panics, "outcomes": outs}))
-	} else if len(panics) > 0 {
+	var view2 map[string]*msgView
+	switch sc.Bounce {
+	case bounceSelf:
+		primary.Msgs = append(primary.Msgs, reportSpool(tap.snapshot())...)
+	case bounceSecond:
+		view2 = viewOf(lg2)
+		sites = append(sites, &spoolSite{Name: "second", Dir: dir2, Partial: sc.Partial, View: view2, Msgs: reportSpool(tap.snapshot())})
+	}
+	anyBroken := false
+	for _, s := range sites {
+		s.readDir()
+		if len(s.Broken) > 0 {
+			anyBroken = true
+			c.Violation("S2/meta-broken/"+dispatchPanicClass(panics), fmt.Sprintf("after shutdown the spool contains %v: a panic in the dispatch goroutine was recovered and the message was quarantined, a restart will not pick it up", s.Broken),
+				wit(map[string]any{"spool": keys(s.Files), "recovered_panics": panics, "outcomes": outs}))
+		}
+	}
+	if !anyBroken && len(panics) > 0 {
 		c.Violation("S2/panic-in-dispatch/"+dispatchPanicClass(panics), "a panic in the queue's dispatch goroutine was recovered", wit(map[string]any{"recovered_panics": panics}))
 	}
 
-	view := viewOf(lg)
-	var pending []string // "msg rcpt" without terminal outcome
-	pendingMsgs := map[string]bool{}
 	inFlight := 0
 	for _, v := range view {
+		inFlight += v.Open
+	}
+	for _, v := range view2 {
 		inFlight += v.Open
 	}
 	if closed && inFlight > 0 {
@@ -632,121 +885,76 @@ func s2Case(t *testing.T, c *rep.Case, r *rep.Reporter, ys yieldStats, p *prng.R
 			undecided = "Queue.Close returned while an attempt was still in flight: spool not judged"
 		}
 	}
+	nPending, reportsPending := 0, 0
 	if closed && enqOK && inFlight == 0 {
-		for _, ms := range sc.Enqueuers {
-			for _, m := range ms {
-				o := outs[m.ID]
-				if !o.Committed {
+		for _, s := range sites {
+			missing, rp := s.pendingOf()
+			nPending += len(s.Pending)
+			reportsPending += rp
+			for id, miss := range missing {
+				if s.Files[id+".meta_broken"] {
 					continue
 				}
-				v := view[m.ID]
-				for _, rc := range m.Rcpts {
-					var st *rcptState
-					if v != nil {
-						st = v.Rcpt[rc]
-					}
-					if st != nil && (st.Delivered > 0 || st.PermFail) {
-						continue
-					}
-					pending = append(pending, m.ID+" "+rc)
-					pendingMsgs[m.ID] = true
-				}
-			}
-		}
-		for id := range pendingMsgs {
-			var missing []string
-			for _, ext := range []string{".meta", ".header", ".body"} {
-				if !files[id+ext] {
-					missing = append(missing, ext)
-				}
-			}
-			if len(missing) > 0 && !files[id+".meta_broken"] {
-				c.Violation("S2/removed-without-terminal-outcome/"+strings.Join(missing, ""), fmt.Sprintf("message %s was committed, has recipients without a terminal outcome, and after shutdown its %v file(s) are gone", id, missing),
-					wit(map[string]any{"spool": keys(files), "pending": pending, "outcomes": outs}))
+				c.Violation("S2/removed-without-terminal-outcome/"+strings.Join(miss, ""), fmt.Sprintf("message %s was committed to the %s queue, has recipients without a terminal outcome, and after shutdown its %v file(s) are gone", id, s.Name, miss),
+					wit(map[string]any{"spool": keys(s.Files), "pending": s.Pending, "outcomes": outs}))
 			}
 		}
 	}
 
 	// ---- each dispatch = one attempt; a retry is not early ----
-	for id, v := range view {
-		if v.Starts > 1+v.TempRounds {
-			c.Violation("S2/dispatched-more-than-once", fmt.Sprintf("message %s: %d attempts although only the commit and %d temporary failures scheduled one", id, v.Starts, v.TempRounds), wit(nil))
-			break
-		}
-	}
-	mon.mu.Lock()
-	for id, st := range mon.tStart {
-		la := mon.tLast[id]
-		for n := 1; n < len(st); n++ {
-			if gap := st[n].Sub(la[n-1]); gap < retry {
-				c.Violation("S2/retry-dispatched-early", fmt.Sprintf("message %s: attempt %d started %v after the previous attempt's last call, retry delay is %v", id, n+1, gap, retry), wit(nil))
+	for _, vw := range []map[string]*msgView{view, view2} {
+		for id, v := range vw {
+			if v.Starts > 1+v.TempRounds {
+				c.Violation("S2/dispatched-more-than-once", fmt.Sprintf("message %s: %d attempts although only the commit and %d temporary failures scheduled one", id, v.Starts, v.TempRounds), wit(nil))
 				break
 			}
 		}
 	}
-	mon.mu.Unlock()
+	for _, mm := range []*s2Mon{mon, mon2} {
+		if mm == nil {
+			continue
+		}
+		mm.mu.Lock()
+		for id, st := range mm.tStart {
+			la := mm.tLast[id]
+			for n := 1; n < len(st); n++ {
+				if gap := st[n].Sub(la[n-1]); gap < retry {
+					c.Violation("S2/retry-dispatched-early", fmt.Sprintf("message %s: attempt %d started %v after the previous attempt's last call, retry delay is %v", id, n+1, gap, retry), wit(nil))
+					break
+				}
+			}
+		}
+		mm.mu.Unlock()
+	}
 	if quiescent && undecided == "" && !c.Violated() {
-		for id, v := range view {
-			if v.Starts != 1+v.TempRounds {
-				c.Violation("S2/not-dispatched-once", fmt.Sprintf("run without shutdown: message %s had %d attempts, expected %d", id, v.Starts, 1+v.TempRounds), wit(nil))
-				break
+		for _, vw := range []map[string]*msgView{view, view2} {
+			for id, v := range vw {
+				if v.Starts != 1+v.TempRounds {
+					c.Violation("S2/not-dispatched-once", fmt.Sprintf("run without shutdown: message %s had %d attempts, expected %d", id, v.Starts, 1+v.TempRounds), wit(nil))
+					break
+				}
 			}
 		}
 	}
 
 	// ---- restart: a fresh queue on the same directory delivers what is pending ----
 	restartDelivered := 0
-	if closed && enqOK && inFlight == 0 && len(pending) > 0 && len(broken) == 0 && !c.Violated() {
+	if closed && enqOK && inFlight == 0 && nPending > 0 && !anyBroken && !c.Violated() {
 		verifkit.ResetYield()
-		lg2 := mx.NewLog()
-		tgt2 := mx.NewTarget(fmt.Sprintf("c12t2-%d", c.Index), lg2)
-		tgt2.Partial = sc.Partial
-		q2, err := queue.VerifNewQueue(queue.VerifOpts{Dir: dir, Target: tgt2, MaxTries: 50, InitialRetryTime: 0, RetryTimeScale: 1, Parallelism: 4})
-		if err != nil {
-			t.Fatal(err)
-		}
-		deadline := time.Now().Add(currentWatchdog())
-		var left []string
-		for {
-			v2 := viewOf(lg2)
-			left = left[:0]
-			for _, pr := range pending {
-				f := strings.Fields(pr)
-				if v := v2[f[0]]; v == nil || v.Rcpt[f[1]] == nil || v.Rcpt[f[1]].Delivered == 0 {
-					left = append(left, pr)
+		for _, s := range sites {
+			if len(s.Pending) == 0 {
+				continue
+			}
+			n, why, lgR := s.restart(t, c.Index)
+			restartDelivered += n
+			if why != "" {
+				undecided = why
+			}
+			for id, v := range viewOf(lgR) {
+				if v.Starts > 1+v.TempRounds {
+					c.Violation("S2/dispatched-more-than-once", fmt.Sprintf("restarted queue: message %s had %d attempts, only one was scheduled", id, v.Starts), wit(map[string]any{"restart_log": tail(lgR.Strings(0), 80)}))
+					break
 				}
-			}
-			if len(left) == 0 || time.Now().After(deadline) {
-				break
-			}
-			time.Sleep(300 * time.Microsecond)
-		}
-		q2done := make(chan struct{})
-		go func() { q2.Close(); close(q2done) }()
-		if !waitDone(q2done) {
-			undecided = "restarted queue did not close within the watchdog"
-		} else if len(left) > 0 {
-			// the restarted queue is closed: nothing is in flight or scheduled any more
-			v2 := viewOf(lg2)
-			var never []string
-			for _, pr := range left {
-				f := strings.Fields(pr)
-				if v := v2[f[0]]; v == nil || v.Starts == 0 {
-					never = append(never, pr)
-				}
-			}
-			if len(never) > 0 && len(never) == len(left) {
-				// never even attempted by the restarted queue although the files were there
-				undecided = fmt.Sprintf("restarted queue did not attempt %v within the watchdog", never)
-			} else {
-				undecided = fmt.Sprintf("restarted queue did not deliver %v within the watchdog", left)
-			}
-		}
-		restartDelivered = len(pending) - len(left)
-		for id, v := range viewOf(lg2) {
-			if v.Starts > 1+v.TempRounds {
-				c.Violation("S2/dispatched-more-than-once", fmt.Sprintf("restarted queue: message %s had %d attempts, only one was scheduled", id, v.Starts), wit(map[string]any{"restart_log": tail(lg2.Strings(0), 80)}))
-				break
 			}
 		}
 	}
@@ -765,7 +973,7 @@ func s2Case(t *testing.T, c *rep.Case, r *rep.Reporter, ys yieldStats, p *prng.R
 	}
 	r.Count("s2_attempts", int64(att))
 	r.Count("s2_retries_scheduled", int64(temps))
-	r.Count("s2_recipients_pending_at_shutdown", int64(len(pending)))
+	r.Count("s2_recipients_pending_at_shutdown", int64(nPending))
 	r.Count("s2_recipients_delivered_by_restart", int64(restartDelivered))
 	mon.mu.Lock()
 	held := mon.held
@@ -779,8 +987,67 @@ func s2Case(t *testing.T, c *rep.Case, r *rep.Reporter, ys yieldStats, p *prng.R
 	if closed {
 		r.Count("s2_closes_returned", 1)
 	}
+	if sc.Extended {
+		r.Count("s2_runs_extended", 1)
+		if sc.Bounce != bounceNone {
+			r.Count("s2_runs_bounce_"+sc.Bounce, 1)
+		}
+		if sc.ViaPipeline {
+			r.Count("s2_runs_bounce_via_msgpipeline", 1)
+		}
+		if sc.NMsgs > sc.Parallelism {
+			r.Count("s2_runs_more_messages_than_slots", 1)
+		}
+		permAtt, nullPerm := 0, 0
+		for _, ms := range sc.Enqueuers {
+			for _, m := range ms {
+				if v := view[m.ID]; v != nil {
+					permAtt += v.PermRounds
+					if m.NullSender {
+						nullPerm += v.PermRounds
+					}
+				}
+			}
+		}
+		r.Count("s2_attempts_failed_permanently", int64(permAtt))
+		r.Count("s2_null_sender_attempts_failed_permanently", int64(nullPerm))
+		recs := tap.snapshot()
+		r.Count("s2_reports_generated", int64(len(recs)))
+		for _, rec := range recs {
+			inQueue := sc.Bounce == bounceSelf || sc.Bounce == bounceSecond
+			if rec.Committed && inQueue {
+				r.Count("s2_reports_enqueued_"+sc.Bounce+"_queue", 1)
+			}
+			if rec.WhileClosing {
+				r.Count("s2_reports_generated_while_closing", 1)
+				if rec.Committed && inQueue {
+					r.Count("s2_reports_enqueued_while_closing", 1)
+				}
+				if rec.Committed && sc.Bounce == bounceSelf {
+					r.Count("s2_reports_enqueued_into_same_queue_while_closing", 1)
+				}
+			}
+		}
+		r.Count("s2_reports_pending_at_shutdown", int64(reportsPending))
+		if sc.Bounce == bounceSelf || sc.Bounce == bounceSecond {
+			r.Count("s2_yield_events_during_report_enqueue", int64(tap.yields()))
+		}
+		if sc.Bounce == bounceSelf || sc.Bounce == bounceSecond {
+			natt := 0
+			vw := view
+			if sc.Bounce == bounceSecond {
+				vw = view2
+			}
+			for _, rec := range recs {
+				if v := vw[rec.ID]; v != nil {
+					natt += v.Starts
+				}
+			}
+			r.Count("s2_report_delivery_attempts", int64(natt))
+		}
+	}
 	if c.Index%997 == 0 {
-		r.Sample(map[string]any{"scenario": sc, "plan": plan.String(), "target_events": lg.Len(), "pending": pending})
+		r.Sample(map[string]any{"scenario": sc, "plan": plan.String(), "target_events": lg.Len(), "pending": primary.Pending})
 	}
 	nontrivial := (plan.D == 0 || hits >= 1) && att >= 1
 	c.Done(sc.shape()+" "+plan.String(), nontrivial)
@@ -806,8 +1073,7 @@ func s2AllTerminal(sc s2Scenario, view map[string]*msgView) bool {
 				return false
 			}
 			for _, rc := range m.Rcpts {
-				st := v.Rcpt[rc]
-				if st == nil || !(st.Delivered > 0 || st.PermFail) {
+				if !terminal(v, rc) {
 					return false
 				}
 			}
